@@ -47,7 +47,8 @@ CLAIMS = {
              "needle and window (C03_optimalDP_eq_alignScore, by cell invariants over all columns and rows); prefix, postfix and exact matching return the scheme's value of the contiguous "
              "alignment they report (companion file C03_Anchored: C03_exactImpl_score, C03_anchored_score); 'never wraps around' (companion file C03_Bound): the scheme's value on any "
              "alignment of L distinct indices is at most (16 + B) L + B, B the largest bonus (C03_scheme_bound, every haystack and configuration), so for needles of up to 2519 "
-             "characters every value, intermediate ones included, is below 2^16 and the code's u16 arithmetic is exact (C03_fits_u16). Not theorems: that each call site passes a window ending at the last "
+             "characters every value, intermediate ones included, is below 2^16 and the code's u16 arithmetic is exact (C03_fits_u16, alignNoSat_of_short), which removes the "
+             "saturation side condition of the calculate_score theorem there (C03_calculateScore_eq_alignScore_short). Not theorems: that each call site passes a window ending at the last "
              "match, and the equality of the compressed u16 matrix with the recurrence - both are the correspondence (implementation = model on every case), and the oracle "
              "evaluates score = scheme on the reported indices for all six algorithms on every case; the u16 saturation for needles > 2520 characters is a KNOWN-FINDING."),
     "C04": dict(
